@@ -155,7 +155,7 @@ def auth_matrix(ctx):
     import aioquic.tls as T
     from vlib import endpoints as E, tlsbench as B, reftls as L
 
-    def client_vs_ref(name, leaf, server_name="localhost", ca="ca.pem", cv_key=None, expect_complete=False, c_suites=None, c_alpn=None, sh_kw=None, ee_kw=None, s_alpn=None, skip_cert=False):
+    def client_vs_ref(name, leaf, server_name="localhost", ca="ca.pem", cv_key=None, expect_complete=False, c_suites=None, c_alpn=None, sh_kw=None, ee_kw=None, s_alpn=None, skip_cert=False, empty_cert=None):
         with E.pinned(("c03-auth", name)):
             c = B.Ctx(True, server_name=server_name, ca=ca, cipher_suites=[T.CipherSuite(x) for x in c_suites] if c_suites else None, alpn=c_alpn)
             s = B.ref_server(leaf_name=leaf, alpn=s_alpn, strict=False)
@@ -164,7 +164,12 @@ def auth_matrix(ctx):
             try:
                 c.feed(s.server_hello(**(sh_kw or {})))
                 c.feed(s.encrypted_extensions(**(ee_kw or {})))
-                if not skip_cert:
+                if empty_cert is not None:
+                    # a Certificate message with an empty list, with or without a CertificateVerify made with some key
+                    c.feed(s.certificate(chain=[]))
+                    if empty_cert == "with-verify":
+                        c.feed(s.certificate_verify())
+                elif not skip_cert:
                     c.feed(s.certificate())
                     c.feed(s.certificate_verify(private_key=cv_key) if cv_key is not None else s.certificate_verify())
                 c.feed(s.finished())
@@ -191,6 +196,8 @@ def auth_matrix(ctx):
     client_vs_ref("cv-by-another-key", "ed25519", cv_key=E.load_key("client.key"))
     client_vs_ref("cv-by-another-key-rsa-leaf", "rsa", cv_key=E.load_key("leaf_p256.key"))
     client_vs_ref("chain-missing-intermediate", "chain3-noica")
+    client_vs_ref("empty-certificate-list-no-verify", "ed25519", empty_cert="no-verify")
+    client_vs_ref("empty-certificate-list-with-verify", "ed25519", empty_cert="with-verify")
     # a server that answers outside what the client is configured for shares no option with it
     client_vs_ref("control-alpn", "ed25519", c_alpn=["h3", "hq-interop"], s_alpn=b"hq-interop", expect_complete=True)
     client_vs_ref("control-suite", "ed25519", c_suites=[0x1303, 0x1301], sh_kw={"cipher_suite": 0x1301}, expect_complete=True)
